@@ -410,6 +410,18 @@ Definition fe_keys (f : fe_field) : res (option (list string)) :=
   | FEExpr ast has_key => bind (extract ast) (fun k => Done (if has_key then Some k else None))
   end.
 
+Definition field_trees (f : field) : list node :=
+  match f with FExpr ast => [ast] | _ => [] end.
+
+Definition fe_trees (f : fe_field) : list node :=
+  match f with FEExpr ast _ => [ast] | _ => [] end.
+
+(* the compiled expressions of a step: refSwitch.switchOn, skipIf, forEach.itemIn, inputs, state *)
+Definition step_trees (st : step_spec) : list node :=
+  (match st_switch st with Some sw => field_trees (sw_on sw) | None => [] end) ++
+  field_trees (st_skip_if st) ++ fe_trees (st_for_each st) ++
+  field_trees (st_inputs st) ++ field_trees (st_state st).
+
 (* the Logic part of _load_step (181-217): resources or None, class of the logic,
    "logic is None", keys of switchOn (only when the switch loaded) *)
 Definition load_step_logic (st : step_spec)
